@@ -115,18 +115,18 @@ Section Model.
     (if list_eq_dec Nat.eq_dec (skipn (length acts - n) s) (seq 1 n) then true else false).
 
   (* the instance-level asserts: limit >= 0, windows and service times >= 0, lo < hi for every node,
-     lo j + d(j,0) + service j <= hi 0 for every node (also when the route is open) *)
+     lo j + d(j,0) / speed + service j <= hi 0 for every node (also when the route is open; travel time since
+     /repo 004c254) *)
   Definition data_ok (i : mtvrp_inst) : bool :=
     (0 <=? lim i) &&
     forallb (fun x => 0 <=? x) (tlo i) && forallb (fun x => 0 <=? x) (thi i) &&
     forallb (fun x => 0 <=? x) (svc i) &&
     forallb (fun j => lo i j <? hi i j) (seq 0 (nn i)) &&
-    forallb (fun j => rnd A (rnd A (lo i j + dfun i j 0) + sv i j) <=? hi i 0%nat) (seq 0 (nn i)).
+    forallb (fun j => rnd A (rnd A (lo i j + tfun i j 0) + sv i j) <=? hi i 0%nat) (seq 0 (nn i)).
 
   (* the loop over the actions: running route length (distance) and clock (distance / speed, as in the mask, since
      /repo ea27328); NOTE the return leg of an open route is not added to the length but is added to the clock, whose
-     value is then tested against the depot's window end; the instance-level assert of [data_ok] still adds the
-     plain distance d(j,0) *)
+     value is then tested against the depot's window end *)
   Fixpoint walk_ok (i : mtvrp_inst) (node : nat) (len t : Z) (acts : list nat) : bool :=
     match acts with
     | [] => true
